@@ -441,14 +441,13 @@ class Subset(Profile):
             if op.get("center_nd"):
                 # one array object for a warm-up call and for the judged call; it must come back unchanged
                 center = np.array(center, dtype=np.float64)
-                op["_center_keep"] = center.copy()
+                keep = center.copy()
                 try:
                     g.subset.nearest_neighbor(center, k=1, element=el)
                 except Exception:
                     pass
-                if not np.array_equal(center, op["_center_keep"]):
-                    raise CentreModified(f"a subset call changed the caller's centre array from {op['_center_keep'].tolist()} to {center.tolist()}")
-                op["_center_keep"] = op["_center_keep"].tolist()
+                if not np.array_equal(center, keep):
+                    raise CentreModified(f"a subset call changed the caller's centre array from {keep.tolist()} to {center.tolist()}")
             if how == "bcircle":
                 r = op["r"]
                 if cart:
